@@ -89,6 +89,35 @@ func (p c04) Gen(r *simhook.Rand, tier string, idx int) harness.Scenario {
 	if r.Chance(1, 4) {
 		sc.Env.FragNum, sc.Env.FragDen = 1, 3
 	}
+	if r.Chance(1, 12) {
+		// class "refresh-in-flight+crash": a slot moves while the reply of a periodic CLUSTER NODES request is on its way
+		// back; a read of that slot is redirected before the reply is processed; then the old owner dies (its replica
+		// takes over its remaining slots). A minute later the key is read again: its owner is reachable.
+		sc.Class = "refresh-in-flight+crash"
+		sc.Env = world.RedisCfg{Masters: 2 + r.Intn(2), Replicas: 1}
+		sc.SlackMs = []int{0, 1, 200}[r.Intn(3)]
+		m := sc.Env.Masters
+		ks := keysForNodes(r, m, "rf", 2)
+		src := r.Intn(m)
+		k := ks[src][r.Intn(2)]
+		for n := range ks {
+			for i, kk := range ks[n] {
+				sc.Env.Preload = append(sc.Env.Preload, world.KV{K: world.Bin(kk), V: world.Bin(uniqueVal("pre", n*10+i, 10))})
+			}
+		}
+		slot := cluster.Slot([]byte(k))
+		sc.Conns = []ConnScript{{Name: "c0", Reqs: []world.Request{
+			{Args: world.Bins("GET", k), Wait: true},
+			{Args: world.Bins("GET", k), Wait: true, Gap: 60000},
+		}}}
+		// the replica of master i is node m+i
+		sc.Faults = []Fault{
+			{Kind: "layout", From: slot, To: slot, Dst: (src + 1 + r.Intn(m-1)) % m, OnCmd: "cluster", Nth: 2 + r.Intn(2)},
+			{Kind: "failover-crash", Node: m + src, OnCmd: "get", Nth: 2},
+		}
+		sc.HorizonS = 900
+		return sc
+	}
 	emptyTarget := r.Chance(1, 3)
 	if emptyTarget {
 		// the last master is a freshly added node without slots: the first slots migrate to it
@@ -288,6 +317,17 @@ func (p c04) Run(t *testing.T, s harness.Scenario) harness.Outcome {
 		if (w.migActive > 0 || len(w.crashSteps) > 0) && w.outstanding() > 0 {
 			overlap = true
 		}
+		if sc.Class == "refresh-in-flight+crash" {
+			for _, c := range w.env.Clients {
+				if c.Gate == nil {
+					// request 0 waits for the layout change, request 1 for the crash
+					c.Gate = func(c *world.Client, idx int) bool { return idx < len(w.fired) && w.fired[idx] }
+				}
+				if len(c.Sent) < 2 {
+					c.Kick()
+				}
+			}
+		}
 		return bad
 	}
 	w.fin = func(w *redisWorld) *simrtViolation {
@@ -299,11 +339,12 @@ func (p c04) Run(t *testing.T, s harness.Scenario) harness.Outcome {
 		for i, c := range w.env.Clients {
 			connIdx[c.Name] = i
 		}
-		admitted := func(sn *world.Sent) bool {
+		admitted := func(sn *world.Sent, key []byte) bool {
 			// errors are admitted only around a crash fail-over: the request must not have been invoked later than
-			// the horizon after the crash, and must not have completed before it
+			// the horizon after the crash, must not have completed before it, and its key must live in a slot the
+			// crashed master had to do with (owned, migrating or importing) - the other slots' owners are reachable
 			for i, cs := range w.crashSteps {
-				if sn.DoneStep >= cs && sn.InvokeTime.Before(w.crashTimes[i].Add(w.horizon())) {
+				if sn.DoneStep >= cs && sn.InvokeTime.Before(w.crashTimes[i].Add(w.horizon())) && (i >= len(w.crashSlots) || w.crashSlots[i][cluster.Slot(key)]) {
 					return true
 				}
 			}
@@ -313,6 +354,7 @@ func (p c04) Run(t *testing.T, s harness.Scenario) harness.Outcome {
 		redirected := map[string]bool{}
 		accepted := map[string]int{}
 		atReplica := map[string]bool{}
+		movedCmd := map[string]bool{}
 		redirChain := map[string][]int{} // the nodes that answered a uniquely identifiable command with MOVED/ASK, in order
 		execAt := map[string]int{} // position in the nodes' log at which a uniquely identifiable command was executed
 		for li, le := range cl.Log {
@@ -330,18 +372,23 @@ func (p c04) Run(t *testing.T, s harness.Scenario) harness.Outcome {
 				}
 			} else {
 				redirected[formKey(le.Args)] = true
+				if le.Reply.IsErr() && strings.HasPrefix(string(le.Reply.Str), "MOVED ") {
+					movedCmd[formKey(le.Args)] = true // MOVED names the new owner and makes the proxy refresh; ASK does neither
+				}
 				if uniqueArg(le.Args) {
 					redirChain[formKey(le.Args)] = append(redirChain[formKey(le.Args)], le.Node)
 				}
 			}
 		}
 		byKey := map[string][]porcupine.Operation{}
+		sentOf := map[[2]int]*world.Sent{}
 		for _, c := range w.env.Clients {
 			ci := connIdx[c.Name]
 			for _, sn := range c.Sent {
 				if !sn.Answered {
 					continue
 				}
+				sentOf[[2]int{ci, sn.Idx}] = sn
 				args := world.BinsToBytes(c.Script[sn.Idx].Args)
 				name := strings.ToLower(string(args[0]))
 				isProbe := strings.HasPrefix(c.Name, "p") || strings.HasPrefix(c.Name, "q")
@@ -381,7 +428,7 @@ func (p c04) Run(t *testing.T, s harness.Scenario) harness.Outcome {
 						// would the model answer with an error too? then it is a result, not a failure
 						probe := refredis.New()
 						_ = probe
-						if admitted(sn) {
+						if admitted(sn, ins[i][refredis.KeyIndex(string(ins[i][0]))]) {
 							in.indet = true
 						}
 					}
@@ -454,8 +501,43 @@ func (p c04) Run(t *testing.T, s harness.Scenario) harness.Outcome {
 							anyErr = true
 						}
 					}
+					note := ""
 					if anyErr && porcupine.CheckOperationsTimeout(c04Model(one, false), relaxed, linTimeout) == porcupine.Ok {
 						clause = "error-while-owner-reachable"
+						// why was the request sent to a node that is gone?  Either the proxy could not know better (the slot
+						// had moved away from the crashed master and nothing had redirected the proxy for that slot yet), or
+						// it had been told: a request for this slot was redirected at least 30 simulated seconds earlier.
+						slot := cluster.Slot([]byte(k))
+						for _, o := range ops {
+							in := o.Input.(c04In)
+							if !o.Output.(resp2.Value).IsErr() || in.indet {
+								continue
+							}
+							failing := sentOf[[2]int{in.conn, in.idx}]
+							if failing == nil || len(w.crashSteps) == 0 || failing.DoneStep < w.crashSteps[0] {
+								continue
+							}
+							taught := false
+							for _, c := range w.env.Clients {
+								for _, sn := range c.Sent {
+									a := world.BinsToBytes(c.Script[sn.Idx].Args)
+									if !sn.Answered || len(a) < 2 || !movedCmd[formKey(a)] || cluster.Slot(a[1]) != slot {
+										continue
+									}
+									// a refresh round is a few dozen scheduling points, each of which may be delayed by the timer slack
+									learn := 30*time.Second + 40*time.Duration(sc.SlackMs)*time.Millisecond
+									if !sn.InvokeTime.After(failing.InvokeTime.Add(-learn)) {
+										taught = true
+									}
+								}
+							}
+							if taught {
+								clause = "error-after-redirection-taught-the-route"
+								note = "; the proxy had been answered MOVED for this slot long before the failing request (30 simulated seconds plus 40 times the timer slack)"
+							} else if note == "" {
+								note = "; (stale route: the slot had left the crashed master and the proxy had not been redirected for it yet)"
+							}
+						}
 					}
 					for _, o := range ops {
 						if atReplica[formKey(o.Input.(c04In).args)] && sc.Env.ReadStrategy == 0 {
@@ -464,7 +546,7 @@ func (p c04) Run(t *testing.T, s harness.Scenario) harness.Outcome {
 							clause = "linearizable-read-at-demoted-master"
 						}
 					}
-					return &simrtViolation{Clause: clause, Detail: fmt.Sprintf("history of key %q has no linearization w.r.t. a single Redis server: %s", k, describe())}
+					return &simrtViolation{Clause: clause, Detail: fmt.Sprintf("history of key %q has no linearization w.r.t. a single Redis server: %s%s", k, describe(), note)}
 				case porcupine.Unknown:
 					w.inconclusive = true
 					continue
